@@ -14,7 +14,12 @@ for sid in sorted(os.listdir(os.path.join(ROOT, "seeded"))):
     det = m.get("detected_by", [])
     und = m.get("undecided_by", [])
     res = m.get("last_evaluation", {}).get("results") or m.get("confirmed_by_me", {}).get("checks_against_change", {})
-    ran = ", ".join(sorted(res.keys()))
+    ran_set = set(res.keys())
+    if "c01_evaluation" in m:      # tools/c01_reeval.py: the C01 check run against this change as well
+        ran_set.add("C01")
+        if m["c01_evaluation"].get("exit") == 2 and "C01" not in und and not det:
+            und = list(und) + ["C01"]
+    ran = ", ".join(sorted(ran_set))
     if sid.startswith("benign"):
         verdict = "**FALSE ALARM** under " + ", ".join(det) if det else ("exit 2 (undecided) under " + ", ".join(und) if und else "exit 0: still verified")
     elif det:
